@@ -6,6 +6,7 @@ from schc_util import FID, fid_of, tb, i2b, n_rule, n_pdesc, ref_compress, gen_r
 from gens import gen_parsed, b2s
 import packets as P
 from microschc.protocol import ComputeFunctions
+from microschc.decompressor.decompressor import decompress
 from microschc.rfc8724 import RuleDescriptor, DirectionIndicator as DI
 from microschc.protocol.ipv4 import IPv4Fields as V4
 from microschc.protocol.ipv6 import IPv6Fields as V6
@@ -158,6 +159,16 @@ def run(rep, tier, seed):
             rule = RuleDescriptor(id=mk(randbits(rnd, rnd.randint(1, 8))), field_descriptors=fds)
             s = ref_compress(n_pdesc(pd), n_rule(rule))
             if s is not None:
+                if subset and subset[0] + 1 < len(fds):
+                    # just before: the same frame decompressed with a mis-provisioned variant of the rule (a field that has no compute
+                    # function marked compute AFTER a computed one): whatever that call raises, it must leave nothing behind
+                    from microschc.rfc8724 import RuleFieldDescriptor as _RFD, MatchingOperator as _MO, CompressionDecompressionAction as _CDA
+                    j_ = rnd.randrange(subset[0] + 1, len(fds))
+                    if j_ not in subset:
+                        o_ = fds[j_]
+                        bad = RuleDescriptor(id=rule.id, field_descriptors=fds[:j_] + [_RFD(o_.id, o_.length, o_.position, o_.direction, o_.target_value, _MO.IGNORE, _CDA.COMPUTE)] + fds[j_ + 1:])
+                        r_ = with_timeout(lambda: decompress(mk(s, R), bad))
+                        rep.hist['failed-call-before:%s' % (r_[1] if r_[0] == 'EXC' else 'ok')] = rep.hist.get('failed-call-before:%s' % (r_[1] if r_[0] == 'EXC' else 'ok'), 0) + 1
                 case_decompress(b, s, rule, None, klass='decompress-compute:%s:%d' % (stack, len(subset)), expect=b2s(pkt), side=rnd.choice([L, R]))
         # the same with a direction: some non-computed fields carry an Up and a Dw descriptor, in either order, so that descriptors the
         # direction filters out sit in front of and between the computed fields (their positions are positions in the FILTERED list)
